@@ -2820,6 +2820,12 @@ func (s *Store) fsmRestore(rc io.ReadCloser) (retErr error) {
 		return fmt.Errorf("error swapping database file: %v", err)
 	}
 	s.logger.Printf("successfully opened database at %s due to restore", s.db.Path())
+	// WAL files staged for an incremental snapshot (retained after a skipped or failed Persist)
+	// were cut from the database which has just been replaced. They must not be packaged with a
+	// later incremental snapshot on top of the restored database.
+	if err := os.RemoveAll(s.walStagingDir); err != nil {
+		return fmt.Errorf("failed to clear WAL staging directory post restore: %w", err)
+	}
 	// Installed SQLite database is safe for fast restarts again.
 	if err := s.createSnapshotFingerprint(); err != nil {
 		return fmt.Errorf("failed to create snapshot fingerprint post restore: %s", err)
